@@ -14,12 +14,18 @@ RULE = ('cases = (a) random operation sequences (length <= 40) on the real Traje
         'on trajectories created in position mode (raw, unwrapped coordinates on the 2^-12 grid) and in displacement mode, every returned array compared '
         'exactly with the Coq store machine; (b) exhaustive comparison of the slice model with CPython slice.indices for len <= 5 (quick) / 8 (thorough) '
         'and start/stop/step in {None, -7..7} / {None, -10..10}; non-trivial = at least 2 representation switches and one derived trajectory')
-TRUSTED = ['numpy arithmetic is exact on the dyadic grid (exact regime)']
+TRUSTED = ['numpy arithmetic is exact on the dyadic grid (exact regime)',
+           'translator unit trajcore (AST of Trajectory.to_positions, positions, displacements, __getitem__, filter -> Gen/TrajCore.v); pymatgen to_positions/to_displacements/__getitem__/extend modelled']
 ASSUMPTIONS = ['queries on displacements are compared away from exact half-cell steps only where the theorem needs it; the tie itself is exact everywhere']
 
 
 def _opt(rng, lo, hi):
     return None if rng.random() < 0.3 else rng.randint(lo, hi)
+
+
+def pre_build():
+    import translate
+    return [translate.gen_traj_core()]
 
 
 def gen_cases(rng, tier):
